@@ -80,6 +80,9 @@ func (mp *MemProvider) Count() int {
 
 // Close releases all resources.
 func (mp *MemProvider) Close() error {
+	mp.mu.Lock()
+	defer mp.mu.Unlock()
+
 	mp.st = make(map[string]*Session)
 	return nil
 }
